@@ -745,8 +745,6 @@ def triggers(graph, fmt, base=None, bind=None):
     lits = list(literals_of(graph))
     if any(x[3] is not None and not is_canonical(x[1], x[3]) for x in lits):
         out.append("F15c")
-    if fmt == "nt" and any(c in u for u in iris_of(graph) for c in PY_SPACE):
-        out.append("F15b")
     if fmt in TURTLE_FAMILY:
         for x in lits:
             if x[3] == XSD + "double":
@@ -866,7 +864,7 @@ class NtText(Suite):
     oeq = "nt_obs_eqb"
     spec = "nt_spec"
     kf = "nt_kf"
-    kf_ids = {1: "F15b"}
+    kf_ids = {}     # F15b (reader refusing \\s inside IRIs) was repaired by 4d2427e4; nt_kf is provably 0 now
     corr = "serializers/nt.py:_nt_row,_quoteLiteral,_quote_encode; parsers/ntriples.py:W3CNTriplesParser.parsestring,unquote; compat.decodeUnicodeEscape"
     quick_n = 1200
     thorough_n = 12000
